@@ -45,6 +45,7 @@ Proof. intros A eqb H l. induction l as [|x l IH]; [reflexivity|]. cbn [list_eqb
 Lemma optN_eqb_refl : forall o, optN_eqb o o = true.
 Proof. intros [x|]; cbn; [apply N.eqb_refl | reflexivity]. Qed.
 
+
 Lemma sat_intro : forall o a l, In a l -> sat1 o a = true -> sat o l = true.
 Proof. intros o a l Hin Hs. unfold sat. apply existsb_exists. exists a. split; assumption. Qed.
 
@@ -59,6 +60,15 @@ Proof.
   rewrite Hc, Hp, optN_eqb_refl, (list_eqb_refl _ _ call_eqb_refl).
   assert (Hk : errclass_eqb k k = true) by (destruct k; reflexivity). rewrite Hk.
   destruct tx as [t|]; [subst txs; rewrite (list_eqb_refl _ _ witem_eqb_refl)|]; reflexivity.
+Qed.
+
+Lemma sat1_reset : forall o upto data g cs txs a,
+  filter is_abort cs = [] -> prefixb data upto = true ->
+  sat1 {| ob_out := outcome_of (Some (RErr a (quic_serr o))); ob_data := data; ob_trl := g; ob_calls := cs; ob_tx := txs |}
+       (reset_allowance o upto) = true.
+Proof.
+  intros o upto data g cs txs a Hc Hp. destruct o; cbn [quic_serr reset_allowance outcome_of];
+    (apply sat1_err; [exact Hc | exact Hp | exact I]).
 Qed.
 
 (* ------------------------------------------------------------------ before the headers *)
@@ -225,7 +235,7 @@ Definition msg_allowances (c : rcfg) (D : bytes) (e : ending) : option (list all
       | Client => Some [AErr KHeaderTooBig None [CStop RFC_H3_REQUEST_CANCELLED] D None]
       end
   | EndFinT HBadQpack => None
-  | EndReset code => Some [AErr KRemoteTerminate (Some code) [] D None]
+  | EndReset code => Some [reset_allowance code D]
   | EndBad => None
   end.
 
@@ -538,11 +548,11 @@ Proof.
       * intros _. unfold pot. cbn. rewrite Hpc. cbn. lia.
     + (* RESET before the HEADERS frame is complete *)
       rewrite fse_quic_eq.
-      assert (Hlc : l = [AErr KRemoteTerminate (Some c) [] [] None]).
+      assert (Hlc : l = [reset_allowance c []]).
       { destruct Hpn as [HS|HS]; rewrite HS in Hl; cbn in Hl; injection Hl as Hl; subst l; reflexivity. }
       subst l.
       eapply finish_script; [exact Hl | left; reflexivity|].
-      apply sat1_err; [rewrite Hcs; reflexivity | rewrite Hacc; reflexivity | exact I].
+      apply sat1_reset; [rewrite Hcs; reflexivity | rewrite Hacc; reflexivity].
   - (* malformed or oversized HEADERS first *)
     destruct (poll_next_bad_pre (fs r) k Hb Hr He) as [Hnil Hcons].
     destruct Hrx as [[Hrx Htodo]|[q Hrx]].
@@ -602,11 +612,11 @@ Proof.
         -- rewrite Hacc. reflexivity.
       * intros _. unfold pot. cbn. rewrite Hpc. cbn. lia.
     + rewrite fse_quic_eq.
-      assert (Hlc : l = [AErr KRemoteTerminate (Some c) [] [] None]).
+      assert (Hlc : l = [reset_allowance c []]).
       { destruct Hpn as [HS|HS]; rewrite HS in Hl; cbn in Hl; injection Hl as Hl; subst l; reflexivity. }
       subst l.
       eapply finish_script; [exact Hl | left; reflexivity|].
-      apply sat1_err; [rewrite Hcs; reflexivity | rewrite Hacc; reflexivity | exact I].
+      apply sat1_reset; [rewrite Hcs; reflexivity | rewrite Hacc; reflexivity].
   - destruct (poll_next_bad_pre (fs r) k Hb Hr He) as [Hnil Hcons].
     destruct Hrx as [[Hrx Htodo]|[q Hrx]].
     + rewrite (Hnil Hrx).
@@ -685,7 +695,7 @@ Proof.
   - (* reset *)
     destruct Hrd as (Hs & c & He & Her). subst s' e er.
     eapply finish_script; [exact Hcl | left; reflexivity|].
-    apply sat1_err; [exact Hab | rewrite <- Hacc; apply prefixb_app | exact I].
+    apply sat1_reset; [exact Hab | rewrite <- Hacc; apply prefixb_app].
 Qed.
 
 (* ---- recv_trailers *)
@@ -812,7 +822,7 @@ Proof.
         subst e. rewrite fse_quic_eq.
         destruct Hsent as [Htx Hcs].
         eapply finish_script; [exact Hcl | left; reflexivity|].
-        apply sat1_err; [|rewrite Hacc; apply prefixb_refl | exact I].
+        apply sat1_reset; [|rewrite Hacc; apply prefixb_refl].
         rewrite app_nil_r, Hcs, Hpc. destruct (c_role (cfg r)); reflexivity.
 Qed.
 
@@ -1283,18 +1293,18 @@ Proof.
   destruct l as [|a l']; [discriminate Hh|]. destruct a as [d0 tx0 t0|]; [|discriminate Hh].
   destruct l'; [|discriminate Hh]. injection Hh as Hh Ht. subst d0 t0.
   assert (Htx : tx0 = healthy_tx c /\ exists body, S = EHeaders HOk :: body).
-  { destruct S as [|x S']; [discriminate Hl|]. destruct x as [k| | | | |]; try discriminate Hl.
+  { destruct S as [|x S']; [discriminate Hl|]. destruct x as [k| | | | |code]; try discriminate Hl.
     - destruct k; cbn in Hl.
-      + destruct (scan_body 0 [] S') as [d1 e1]. destruct e1 as [|k1|c1|]; try discriminate Hl.
+      + destruct (scan_body 0 [] S') as [d1 e1]. destruct e1 as [|k1|c1|]; try discriminate Hl; try (destruct c1; discriminate Hl).
         * injection Hl as H1 H2 H3. split; [symmetry; exact H2 | eexists; reflexivity].
         * destruct k1; try discriminate Hl; try (destruct (c_role c); discriminate Hl).
           injection Hl as H1 H2 H3. split; [symmetry; exact H2 | eexists; reflexivity].
       + destruct (c_role c); discriminate Hl.
       + destruct (c_role c); discriminate Hl.
       + discriminate Hl.
-    - cbn in Hl. destruct S' as [|y S'']; [discriminate Hl|]. destruct y; try discriminate Hl. destruct S''; discriminate Hl.
+    - cbn in Hl. destruct S' as [|y S'']; [discriminate Hl|]. destruct y as [| | | | |o]; try discriminate Hl. destruct S''; [destruct o|]; discriminate Hl.
     - cbn in Hl. destruct S'; [|discriminate Hl]. destruct (c_role c); discriminate Hl.
-    - cbn in Hl. destruct S'; discriminate Hl. }
+    - cbn in Hl. destruct S'; [destruct code|]; discriminate Hl. }
   destruct Htx as [Htx [body HS]]. subst tx0.
   assert (Henv : classify_env c E S = []).
   { unfold classify_env. rewrite Hs, Ho, HS. cbn [app].
@@ -1345,7 +1355,7 @@ Proof.
   match goal with |- context[store ?x s] => pose proof (store_mono x s) as H; destruct (store x s) end. exact H.
 Qed.
 Lemma fse_quic_mono : forall c s, sh_mono s (fst (fse_quic c s)).
-Proof. intros c s. unfold fse_quic. destruct fse_quic_via_hq; [apply ost_mono | apply ces_mono]. Qed.
+Proof. intros c s. unfold fse_quic. destruct fse_quic_via_hq; [destruct c; [apply ost_mono | apply osu_mono] | apply ces_mono]. Qed.
 Lemma fse_end_mono : forall s, sh_mono s (fst (fse_end s)).
 Proof. intros s. unfold fse_end. destruct fse_end_stores; [apply ces_mono | left; reflexivity]. Qed.
 Lemma write_err_mono : forall r s, match write_err r s with Some (s', _) => sh_mono s s' | None => True end.
@@ -1567,15 +1577,15 @@ Lemma recv_data_loop_indep : forall fuel s s2 f x f',
 Proof.
   induction fuel as [|n IH]; intros s s2 f x f' H Hrel; cbn [recv_data_loop] in *.
   - destruct (remaining f =? 0); [injection H as H1 H2; subst; reflexivity|].
-    destruct (poll_data f) as [[|d| |c| |] f1]; try (injection H as H1 H2; subst; reflexivity).
+    destruct (poll_data f) as [[|d| |c| |] f1]; rewrite ?fse_quic_eq in *; try (injection H as H1 H2; subst; reflexivity).
     destruct (fse_end s) as [s' e] eqn:He. injection H as H1 H2 H3. subst.
     rewrite (fse_end_indep _ _ _ He Hrel). reflexivity.
   - destruct (remaining f =? 0).
-    + destruct (poll_next f) as [[| |k|t|c| | |m] f1]; try (injection H as H1 H2; subst; reflexivity).
+    + destruct (poll_next f) as [[| |k|t|c| | |m] f1]; rewrite ?fse_quic_eq in *; try (injection H as H1 H2; subst; reflexivity).
       * eapply IH; eassumption.
       * destruct (fse_end s) as [s' e] eqn:He. injection H as H1 H2 H3. subst.
         rewrite (fse_end_indep _ _ _ He Hrel). reflexivity.
-    + destruct (poll_data f) as [[|d| |c| |] f1]; try (injection H as H1 H2; subst; reflexivity).
+    + destruct (poll_data f) as [[|d| |c| |] f1]; rewrite ?fse_quic_eq in *; try (injection H as H1 H2; subst; reflexivity).
       destruct (fse_end s) as [s' e] eqn:He. injection H as H1 H2 H3. subst.
       rewrite (fse_end_indep _ _ _ He Hrel). reflexivity.
 Qed.
